@@ -206,3 +206,8 @@ package netflow9
 //@   loop 1
 //@     invariant 0 <= i && i <= 32 && len(m) == 32 && (forall j :: m.off <= j && j < m.off + i ==> m.arr[j] != nil && !m.arr[j].Templates.isnil)
 //@     decreases 32 - i
+
+//@ func (MemCache).valid
+//@   ensures result ==> wellFormed9(m)
+//@   loop 1
+//@     invariant len(m) == 32 && (forall j :: m.off <= j && j < m.off + range_i ==> m.arr[j] != nil && !m.arr[j].Templates.isnil)
